@@ -386,7 +386,8 @@ def native_samples(reg, rnd, n):
                       "next_dist": rnd.choice([-0.5, 0.0, 12.25]), "serial_open": rnd.random() < 0.6,
                       "wire": rnd.choice(["", "abc\n"]), "clicks": rnd.choice([0, 4])}
         if j["unit"] == "SerialMonitor.write":
-            j["params"]["value"] = rnd.choice([0, 17, -3, True, "ping", "line\n", None, {"real": "5/2"}])
+            j["params"]["value"] = rnd.choice([0, 17, -3, True, "ping", "line\n", None, {"real": "5/2"}, "\u00e9" * 32, "x" * 60 + "\u00b0\u00b0\u00b0", "\u6e29\u5ea6" * 12, "a" * 200,
+                                               "\u00e9" * 33 + "tail", "", "\u20ac" * 22])
         if j["unit"] == "sleep":
             j["params"]["sleep_func"] = fn_or_none("sleep_func")
         if j["unit"] == "Button.__init__":
